@@ -205,25 +205,25 @@ theorem step_exec (fuel : Nat) (ihE : PExec fuel) (ihL : PList fuel) (ihA : PAO 
   intro fs sup c s s' r d L hfs hws hdL h
   cases c with
   | leaf id codes =>
-    simp only [exec, Option.some.injEq] at h
+    (rw [exec.eq_def] at h; simp only [Option.some.injEq] at h)
     simp only [spec, absB_normal_pending, Bool.false_eq_true, ↓reduceIte]
     obtain ⟨e, ok, l⟩ := post_spec h L d trivial
     exact ⟨congrArg some e, ok, l⟩
   | probe =>
-    simp only [exec, post, Option.some.injEq] at h
+    (rw [exec.eq_def] at h; simp only [post, Option.some.injEq] at h)
     simp [Flow.isNormal] at h
     obtain ⟨rfl, rfl⟩ := h
     simp only [spec, absB_normal_pending, Bool.false_eq_true, ↓reduceIte]
     and_intros <;> first | rfl | trivial
   | seq cs =>
-    simp only [exec] at h
+    (rw [exec.eq_def] at h; simp only at h)
     simp only [viol] at hws
     simp only [spec, absB_normal_pending, Bool.false_eq_true, ↓reduceIte]
     exact ihL fs sup cs s s' r d L hfs hws hdL h
   | andOr first rest =>
     simp only [viol, List.append_eq_nil_iff] at hws
     cases rest <;>
-    · simp only [exec] at h
+    · (rw [exec.eq_def] at h; simp only at h)
       split at h
       · simp at h
       · rename_i s1 r1 he
@@ -232,7 +232,7 @@ theorem step_exec (fuel : Nat) (ihE : PExec fuel) (ihL : PList fuel) (ihA : PAO 
         exact ihA fs sup _ s1 s' r1 r d L hfs hws.2 hdL l1 ok1 h
   | bang c =>
     simp only [viol] at hws
-    simp only [exec] at h
+    (rw [exec.eq_def] at h; simp only at h)
     split at h
     · simp at h
     · rename_i s1 r1 he
@@ -251,7 +251,7 @@ theorem step_exec (fuel : Nat) (ihE : PExec fuel) (ihL : PList fuel) (ihA : PAO 
         and_intros <;> first | rfl | trivial | assumption
   | if1 cond thn =>
     simp only [viol, List.append_eq_nil_iff] at hws
-    simp only [exec] at h
+    (rw [exec.eq_def] at h; simp only at h)
     split at h
     · simp at h
     · rename_i s1 r1 he
@@ -288,7 +288,7 @@ theorem step_exec (fuel : Nat) (ihE : PExec fuel) (ihL : PList fuel) (ihA : PAO 
           exact ⟨congrArg some e, ok, l⟩
   | if2 cond thn els =>
     simp only [viol, List.append_eq_nil_iff] at hws
-    simp only [exec] at h
+    (rw [exec.eq_def] at h; simp only at h)
     split at h
     · simp at h
     · rename_i s1 r1 he
@@ -323,7 +323,7 @@ theorem step_exec (fuel : Nat) (ihE : PExec fuel) (ihL : PList fuel) (ihA : PAO 
           exact ⟨congrArg some e, ok, l⟩
   | whileU isUntil cond body =>
     simp only [viol, List.append_eq_nil_iff] at hws
-    simp only [exec] at h
+    (rw [exec.eq_def] at h; simp only at h)
     split at h
     · simp at h
     · rename_i s1 r1 he
@@ -335,7 +335,7 @@ theorem step_exec (fuel : Nat) (ihE : PExec fuel) (ihL : PList fuel) (ihA : PAO 
       exact ⟨congrArg some e, ok, l⟩
   | forIn n body =>
     simp only [viol] at hws
-    simp only [exec] at h
+    (rw [exec.eq_def] at h; simp only at h)
     split at h
     · simp at h
     · rename_i s1 r1 he
@@ -347,7 +347,7 @@ theorem step_exec (fuel : Nat) (ihE : PExec fuel) (ihL : PList fuel) (ihA : PAO 
       exact ⟨congrArg some e, ok, l⟩
   | case arms =>
     simp only [viol] at hws
-    simp only [exec] at h
+    (rw [exec.eq_def] at h; simp only at h)
     split at h
     · simp at h
     · rename_i s1 r1 he
@@ -359,7 +359,7 @@ theorem step_exec (fuel : Nat) (ihE : PExec fuel) (ihL : PList fuel) (ihA : PAO 
       exact ⟨congrArg some e, ok, l⟩
   | group c =>
     simp only [viol] at hws
-    simp only [exec] at h
+    (rw [exec.eq_def] at h; simp only at h)
     split at h
     · simp at h
     · rename_i s1 r1 he
@@ -370,7 +370,7 @@ theorem step_exec (fuel : Nat) (ihE : PExec fuel) (ihL : PList fuel) (ihA : PAO 
       exact ⟨congrArg some e, ok, l⟩
   | subshell c =>
     simp only [viol] at hws
-    simp only [exec] at h
+    (rw [exec.eq_def] at h; simp only at h)
     split at h
     · simp at h
     · rename_i s1 r1 he
@@ -382,7 +382,7 @@ theorem step_exec (fuel : Nat) (ihE : PExec fuel) (ihL : PList fuel) (ihA : PAO 
       simp only [absB_st, l1]
       exact ⟨congrArg some e, ok, l⟩
   | call f =>
-    simp only [exec] at h
+    (rw [exec.eq_def] at h; simp only at h)
     simp only [spec, absB_normal_pending, Bool.false_eq_true, ↓reduceIte]
     cases hf : fs[f]? with
     | none =>
@@ -419,7 +419,7 @@ theorem step_exec (fuel : Nat) (ihE : PExec fuel) (ihL : PList fuel) (ihA : PAO 
     simp only [viol] at hws
     obtain ⟨hpos, hle⟩ := jumpViol_ok hws
     have hL : L ≠ 0 := by omega
-    simp only [exec, Int.not_le.mpr hpos, ↓reduceIte, Option.some.injEq] at h
+    (rw [exec.eq_def] at h; simp only [Int.not_le.mpr hpos, ↓reduceIte, Option.some.injEq] at h)
     rw [post_not_normal rfl] at h
     simp only [Prod.mk.injEq] at h
     obtain ⟨rfl, rfl⟩ := h
@@ -435,7 +435,7 @@ theorem step_exec (fuel : Nat) (ihE : PExec fuel) (ihL : PList fuel) (ihA : PAO 
     simp only [viol] at hws
     obtain ⟨hpos, hle⟩ := jumpViol_ok hws
     have hL : L ≠ 0 := by omega
-    simp only [exec, Int.not_le.mpr hpos, ↓reduceIte, Option.some.injEq] at h
+    (rw [exec.eq_def] at h; simp only [Int.not_le.mpr hpos, ↓reduceIte, Option.some.injEq] at h)
     rw [post_not_normal rfl] at h
     simp only [Prod.mk.injEq] at h
     obtain ⟨rfl, rfl⟩ := h
@@ -449,7 +449,7 @@ theorem step_exec (fuel : Nat) (ihE : PExec fuel) (ihL : PList fuel) (ihA : PAO 
     all_goals trivial
   | ret code =>
     cases code <;>
-    · simp only [exec] at h
+    · (rw [exec.eq_def] at h; simp only at h)
       simp only [spec, absB_normal_pending, Bool.false_eq_true, ↓reduceIte, absB_st, absB_setLast]
       by_cases hd : s.fdepth > 0
       · simp only [hd, ↓reduceIte, Option.some.injEq] at h ⊢
@@ -462,14 +462,14 @@ theorem step_exec (fuel : Nat) (ihE : PExec fuel) (ihL : PList fuel) (ihA : PAO 
         exact ⟨e, ok, l⟩
   | exit code =>
     cases code <;>
-    · simp only [exec, Option.some.injEq] at h
+    · (rw [exec.eq_def] at h; simp only [Option.some.injEq] at h)
       simp only [spec, absB_normal_pending, Bool.false_eq_true, ↓reduceIte, absB_st, absB_setLast]
       rw [post_not_normal rfl] at h
       simp only [Prod.mk.injEq] at h
       obtain ⟨rfl, rfl⟩ := h
       and_intros <;> first | rfl | trivial
   | setOpt o on =>
-    simp only [exec, Option.some.injEq] at h
+    (rw [exec.eq_def] at h; simp only [Option.some.injEq] at h)
     simp only [spec, absB_normal_pending, Bool.false_eq_true, ↓reduceIte]
     obtain ⟨e, ok, l⟩ := post_spec h L d trivial
     refine ⟨congrArg some ?_, ok, l⟩
@@ -477,7 +477,7 @@ theorem step_exec (fuel : Nat) (ihE : PExec fuel) (ihL : PList fuel) (ihA : PAO 
     rfl
   | cmdsubst c =>
     simp only [viol] at hws
-    simp only [exec] at h
+    (rw [exec.eq_def] at h; simp only at h)
     split at h
     · simp at h
     · rename_i s1 r1 he
@@ -490,7 +490,7 @@ theorem step_exec (fuel : Nat) (ihE : PExec fuel) (ihL : PList fuel) (ihA : PAO 
       exact ⟨congrArg some e, ok, l⟩
   | evalC c =>
     simp only [viol] at hws
-    simp only [exec] at h
+    (rw [exec.eq_def] at h; simp only at h)
     split at h
     · simp at h
     · rename_i s1 r1 he
@@ -501,7 +501,7 @@ theorem step_exec (fuel : Nat) (ihE : PExec fuel) (ihL : PList fuel) (ihA : PAO 
       exact ⟨congrArg some e, ok, l⟩
   | pipe codes lastc =>
     simp only [viol] at hws
-    simp only [exec] at h
+    (rw [exec.eq_def] at h; simp only at h)
     split at h
     · simp at h
     · rename_i s1 r1 he
@@ -512,6 +512,23 @@ theorem step_exec (fuel : Nat) (ihE : PExec fuel) (ihL : PList fuel) (ihA : PAO 
       obtain ⟨e, ok, l⟩ := post_spec h L d trivial
       simp only [absB_st, l1]
       exact ⟨congrArg some e, ok, l⟩
+
+  | fault k =>
+    have hpop : ({ ({ s with scope := s.scope + 1 } : St) with scope := s.scope + 1 - 1 } : St) = s := by
+      cases s; simp
+    cases k <;>
+    · (rw [exec.eq_def] at h; simp only [Option.some.injEq] at h)
+      simp only [spec, absB_normal_pending, Bool.false_eq_true, ↓reduceIte, absB_setLast]
+      first
+        | (obtain ⟨e, ok, l⟩ := post_spec h L d trivial
+           exact ⟨congrArg some e, ok, l⟩)
+        | (rw [hpop] at h
+           obtain ⟨e, ok, l⟩ := post_spec h L d trivial
+           exact ⟨congrArg some e, ok, l⟩)
+  | callT f =>
+    (rw [exec.eq_def] at h; simp only at h)
+    simp only [spec, absB_normal_pending, Bool.false_eq_true, ↓reduceIte]
+    exact ihE fs sup (.call f) s s' r d L hfs (by simp [viol]) hdL h
 
 @[simp] theorem brk_beq_ret (k : Nat) : (Flow.brk k == Flow.ret) = false := by
   apply beq_false_of_ne; intro h; cases h
@@ -732,7 +749,7 @@ theorem refines_all (fuel : Nat) : PExec fuel ∧ PList fuel ∧ PAO fuel ∧ PW
   induction fuel with
   | zero =>
     refine ⟨?_, ?_, ?_, ?_, ?_, ?_⟩
-    · intro fs sup c s s' r d L _ _ _ h; simp [exec] at h
+    · intro fs sup c s s' r d L _ _ _ h; (rw [exec.eq_def] at h; simp at h)
     · intro fs sup cs s s' r d L _ _ _ h; simp [execList] at h
     · intro fs sup aos s s' r r' d L _ _ _ _ _ h; simp [execAO] at h
     · intro fs sup isUntil cond body s s' r r' d L _ _ _ _ _ h; simp [loopW] at h
